@@ -710,12 +710,22 @@ def flags_judge(case, obs):
 _OBSERVE = {"undef": (undef_observe, undef_judge), "hist": (hist_observe, hist_judge), "flags": (flags_observe, flags_judge)}
 
 
+def _dispatch(block):
+    if block not in _OBSERVE:  # blocks "nargs" and "subcmd": mc/checks/c05_shapes.py (imports this module)
+        from mc.checks import c05_shapes
+
+        _OBSERVE.update(c05_shapes.OBSERVE)
+    return _OBSERVE[block]
+
+
 def cases(quick):
-    return undef_cases(quick) + hist_cases(quick) + flags_cases(quick)
+    from mc.checks import c05_shapes
+
+    return undef_cases(quick) + hist_cases(quick) + flags_cases(quick) + c05_shapes.cases(quick)
 
 
 def run_case(case):
-    observe, judge = _OBSERVE[case["block"]]
+    observe, judge = _dispatch(case["block"])
     obs, _ = observe(case)
     return judge(case, obs)
 
@@ -739,7 +749,7 @@ def hist_fresh_keys(case):
 
 
 def work(case):
-    observe, judge = _OBSERVE[case["block"]]
+    observe, judge = _dispatch(case["block"])
     obs, parses = observe(case)
     flat = _flat(obs)
     return {
